@@ -510,6 +510,43 @@ Proof.
       * inversion HR; subst. destruct HIn as [H|[]]. discriminate.
 Qed.
 
+(* Since the fix "finish returns an error for parameter sets that do not fit avcC/hvcC's 16-bit length
+   fields": a history that contains a successful finish ends in a state whose STORED video configuration
+   has no parameter set longer than 65535 bytes (no hypothesis on the start state is needed: the
+   successful finish itself passed the guard, and nothing changes afterwards). *)
+Lemma finished_params_fit_gen : forall ops m m' rs s,
+  run m ops = (m', rs) -> In (RStats s) rs ->
+  param_sets_too_long (w_vconfig (m_writer m')) = false.
+Proof.
+  induction ops as [|o t IH]; intros m m' rs s HR HIn; cbn [run] in HR.
+  - inversion HR; subst. destruct HIn.
+  - destruct (step m o) as [m1 r] eqn:ES.
+    destruct r as [|st|e|p].
+    + destruct (run m1 t) as [m2 rs2] eqn:ER. inversion HR; subst.
+      destruct HIn as [H|H]; [discriminate|]. exact (IH m1 m' rs2 s ER H).
+    + assert (o = FIN).
+      { destruct o; try reflexivity; exfalso;
+          eapply (step_not_stats m); try (rewrite ES; reflexivity); discriminate. }
+      subst o.
+      destruct (successful_finish_finishes _ _ _ ES) as [F1 F2].
+      destruct (finish_ok_shape _ _ _ ES) as (w1 & Fz & Hw1 & _).
+      destruct (run_finished_id t m1 F1 F2) as [Hid _].
+      destruct (run m1 t) as [m2 rs2] eqn:ER. cbn [fst] in Hid. subst m2.
+      injection HR as Hm Hrs. subst m'.
+      rewrite Hw1. pose proof (finalize_vconfig (m_writer m) (m_video m) (m_meta m) (m_fast m)) as Hc.
+      rewrite Fz in Hc. cbn [fst] in Hc. rewrite Hc.
+      exact (finalize_ok_params_fit _ _ _ _ _ Fz).
+    + destruct (run m1 t) as [m2 rs2] eqn:ER. inversion HR; subst.
+      destruct HIn as [H|H]; [discriminate|]. exact (IH m1 m' rs2 s ER H).
+    + inversion HR; subst. destruct HIn as [H|[]]. discriminate.
+Qed.
+
+Theorem finished_params_fit : forall b m0 ops m rs s,
+  build b [] = inl m0 -> run m0 ops = (m, rs) -> In (RStats s) rs ->
+  param_sets_too_long (w_vconfig (m_writer m)) = false.
+Proof. intros b m0 ops m rs s _ HR HIn. exact (finished_params_fit_gen ops m0 m rs s HR HIn). Qed.
+Print Assumptions finished_params_fit.
+
 (* the replay sees the successful finish *)
 Lemma acc_fin_sticky b : forall l s, a_fin s = true -> a_fin (fold_left (acc_step b) l s) = true.
 Proof.
